@@ -146,6 +146,8 @@ def run(ctx):
     shared.recursion_audit(ctx, '7', ['db::IndexedChangeSet', 'column::HashColumn::prepare', 'column::HashColumn::claim', 'multitree::'])
     shared.no_fixed_slice_of_client_key(ctx, '7', ['db::IndexedChangeSet', 'db::DbInner', 'column::HashColumn'])
     shared.tree_lock_decision(ctx, '8')
+    # free-list mirror of the node tables moves in step with the on-disk head
+    shared.free_list_mirror_in_step(ctx, '5m')
     # 9. inside one commit the keyed changes of a column set (Set / Reference / Dereference of root keys) are planned before its node
     # changes: the removal of a tree decides "last reference gone" from the root's count as the record under construction shows it,
     # so a ReferenceTree of the same commit has to be in that record already
